@@ -155,6 +155,7 @@ class Zooming(Algorithm):
                 self.partition.make_children(parent=parent, newlayer=False)
 
             children_list = parent.get_children()
+            arm_assigned = False  # the arm is handed to exactly one child containing it
             for child in children_list:
                 child_domain = child.get_domain()
                 point = self.best_arm.get_point()
@@ -172,7 +173,10 @@ class Zooming(Algorithm):
                         child_updated = True
                         break
 
-                if not child_updated:
+                if not child_updated and arm_assigned:
+                    self.make_active(child)  # the arm lies on a shared face
+                elif not child_updated:
+                    arm_assigned = True
                     self.active_points[
                         self.best_arm
                     ] = child  # else, update the active arm to refer to the child node
